@@ -78,6 +78,12 @@ def derived_pool(rng):
     pool.append(("sliced", ["expr", ["slice", ob, 0, rng.choice([1, 2, 99])]]))
     pool.append(("times", ["expr", ["mul", ob, rng.choice([1, 2])]]))
     pool.append(("plus-str", ["expr", ["addstr", ob, rng.choice(["", "x"])]]))
+    # the same display built two ways: + a FmtStr, and + its rendering as a plain str (which + does not parse: the
+    # escape sequences become TEXT of a run) -- equal terminal strings, different .s
+    tail = rng.choice([["leaf", "b", ["red"], {}], ["leaf", "Tb", [], {"bold": True}], ["leaf", "k\n", ["on_blue"], {}]])
+    pool.append(("plus-fmt", ["expr", ["add", base, tail]]))
+    pool.append(("plus-rendered", ["expr", ["addstr", base, str(canon.eval_expr(tail))]]))
+    pool.append(("plus-rendered-observed", ["expr", ["obs", ["addstr", ob, str(canon.eval_expr(tail))], ["len", "s"]]]))
     # the same values built afresh from their runs
     fresh = []
     for lab, op in rng.sample(pool, 3):
